@@ -3,6 +3,13 @@ from .facts import BRANCH_TERMS
 
 
 def edges(fn, b):
+    c = fn.__dict__.setdefault("_edges", {})
+    if b not in c:
+        c[b] = _edges(fn, b)
+    return c[b]
+
+
+def _edges(fn, b):
     """feasible out-edges of block b: list of (succ_id, cond_node_or_None, polarity)
     polarity: True/False for two-way branches, ('case', K) / ('default',) for switches, None otherwise.
     Edges whose condition is a compile-time constant of the other polarity are dropped (do{}while(0), assert strings)."""
@@ -82,7 +89,14 @@ def rpo(fn):
 
 
 def dominators(fn):
-    """block-level dominator sets over feasible edges"""
+    """block-level dominator sets over feasible edges (memoised per function)"""
+    if getattr(fn, "_dom", None) is not None:
+        return fn._dom
+    fn._dom = _dominators(fn)
+    return fn._dom
+
+
+def _dominators(fn):
     order = rpo(fn)
     preds = {b: [] for b in order}
     for b in order:
@@ -108,6 +122,13 @@ def dominators(fn):
 
 
 def postdominators(fn, exits=None):
+    if getattr(fn, "_pdom", None) is not None:
+        return fn._pdom
+    fn._pdom = _postdominators(fn)
+    return fn._pdom
+
+
+def _postdominators(fn, exits=None):
     """block-level post-dominator sets w.r.t. the exit block; blocks that cannot reach the exit
     (noreturn arms) post-dominate nothing and are ignored."""
     reach = reachable(fn)
